@@ -133,6 +133,43 @@ var advTemplates = []advTemplate{
 	{"gsub-expand", func(g *core.Tape) string {
 		return `return #(("a"):rep(1e5):gsub(".", ("%0"):rep(` + bigN(g) + `)))`
 	}},
+	{"gsub-expand-long-match", func(g *core.Tape) string {
+		k := []string{"1e3", "1e4", "1e5", "1e6"}[g.Choose(4)]
+		pat := []string{".+", "(.+)", "(a+)(a)", "a*"}[g.Choose(4)]
+		ref := []string{"%0", "%1", "%0%1", "x%0"}[g.Choose(4)]
+		return `return #(("a"):rep(` + k + `):gsub("` + pat + `", ("` + ref + `"):rep(` + bigN(g) + `)))`
+	}},
+	{"gsub-table-repl", func(g *core.Tape) string {
+		return `local big = ("z"):rep(1e4) return #(("a"):rep(` + bigN(g) + `):gsub(".", {a = big}))`
+	}},
+	{"gsub-func-repl", func(g *core.Tape) string {
+		return `local big = ("z"):rep(1e4) return #(("a"):rep(` + bigN(g) + `):gsub(".", function() return big end))`
+	}},
+	{"format-width", func(g *core.Tape) string {
+		return `return #string.format(("%99s"):rep(` + bigN(g) + `), "x")`
+	}},
+	{"format-q-big", func(g *core.Tape) string {
+		return `return #string.format("%q%q%q%q", ("\0"):rep(` + bigN(g) + `), "a", "b", "c")`
+	}},
+	{"upper-lower-reverse", func(g *core.Tape) string {
+		f := []string{"upper", "lower", "reverse"}[g.Choose(3)]
+		return `local s = ("ab"):rep(1e4) local n = 0 for i = 1, ` + bigN(g) + ` do s = (s .. s):` + f + `() n = #s end return #s`
+	}},
+	{"concat-doubling", func(g *core.Tape) string {
+		return `local s = "x" for i = 1, ` + bigN(g) + ` do s = s .. s end return #s`
+	}},
+	{"table-concat-sep", func(g *core.Tape) string {
+		return `local t = {} for i = 1, 1000 do t[i] = "v" end return #table.concat(t, ("-"):rep(` + bigN(g) + `))`
+	}},
+	{"string-char-unpack", func(g *core.Tape) string {
+		return `local t = {} for i = 1, ` + bigN(g) + ` do t[i] = 65 end return #string.char(table.unpack(t))`
+	}},
+	{"utf8-char-unpack", func(g *core.Tape) string {
+		return `local t = {} for i = 1, ` + bigN(g) + ` do t[i] = 0x10FFFF end return #utf8.char(table.unpack(t))`
+	}},
+	{"tostring-concat-numbers", func(g *core.Tape) string {
+		return `local s = "" for i = 1, ` + bigN(g) + ` do s = s .. i .. 1.5 end return #s`
+	}},
 	{"gsub-func-spin", func(g *core.Tape) string {
 		return `(("a"):rep(10)):gsub(".", function() while true do end end)`
 	}},
@@ -230,6 +267,11 @@ func runQuotaAdv(ctx *core.RunCtx) {
 		wrap = 3
 	}
 	body := tpl.body(g)
+	if strings.HasPrefix(body, "return #") || strings.Contains(body, " return #") {
+		// the size of what was built is reported: a value of M bytes or more cannot exist under limit M
+		i := strings.LastIndex(body, "return #")
+		body = body[:i] + `emit("len", ` + body[i+7:] + `)`
+	}
 	var src string
 	switch wrap {
 	case 3:
@@ -280,6 +322,17 @@ func runQuotaAdv(ctx *core.RunCtx) {
 	if r.termAt >= 0 && len(r.events) > r.termAt {
 		ctx.Fail(prop, prop+".K3", "event-after-termination:"+sig, "event %q emitted after the context was terminated; %s", r.events[r.termAt], where)
 		return
+	}
+	for _, e := range r.events {
+		if strings.HasPrefix(e, "emit \"len\" ") {
+			var n uint64
+			fmt.Sscan(e[len("emit \"len\" "):], &n)
+			ctx.Count("probe.sized value built under the limit", 1)
+			if n >= memL {
+				ctx.Fail(prop, prop+".M3", "value-exceeds-limit:"+sig, "a string of %d bytes was built in a context whose memory limit is %d (accounted at the end: %d); %s", n, memL, r.used.Memory, where)
+				return
+			}
+		}
 	}
 	for _, e := range r.events {
 		if strings.Contains(e, "after-kill") {
